@@ -617,6 +617,183 @@ impl Model for C09Model {
     }
 }
 
+//------------ (d) the real start-up path -------------------------------------
+
+/// Builds a world, brings it into a "crashed with these tasks running" state,
+/// then starts it through the real `StartupManager::run_scheduler` (real
+/// scheduler thread, real loop), waits for quiescence, stops the threads and
+/// evaluates the restart oracle. Runs in a forked child (threads!).
+fn real_startup_case(running: &[&str]) -> Vec<(String, String)> {
+    use krill::commons::storage::StorageSystem;
+    use krill::server::manager::StartupManager;
+    let f = c01::full_ca_res();
+    let mut w = match World::build_w2(WorldCfg::default(), res(&f.0, &f.1, &f.2)) {
+        Ok(w) => w,
+        Err(e) => return vec![("machinery".into(), format!("build: {e}"))],
+    };
+    // a daemon that has been running: recurring tasks queued
+    if let Err(e) = w.restart() {
+        return vec![("machinery".into(), format!("first start: {e}"))];
+    }
+    if let Err(e) = w.pump() {
+        return vec![("machinery".into(), format!("first pump: {e}"))];
+    }
+    // make the wanted tasks running (claimed, then the daemon dies)
+    for name in running {
+        let task = match *name {
+            "queue_start_tasks" => Task::QueueStartTasks,
+            "sync_repo_ca" => Task::SyncRepo { ca_handle: crate::world::ca("ca"), ca_version: 0 },
+            "update_stored_snapshots" => Task::UpdateSnapshots,
+            other => return vec![("machinery".into(), format!("unknown task {other}"))],
+        };
+        // due tasks are handed out earliest first: make this one the only due one
+        if let Err(e) = w.krill.tasks().schedule(task, krill::server::mq::now()) {
+            return vec![("machinery".into(), format!("schedule: {e}"))];
+        }
+        match w.krill.tasks().pop() {
+            Some((key, _)) if key.as_str().ends_with(name) => {}
+            other => {
+                return vec![(
+                    "machinery".into(),
+                    format!("expected to claim {name}, got {:?}", other.map(|o| o.0.to_string())),
+                )];
+            }
+        }
+    }
+    let before_running: Vec<String> = w.running_tasks().into_iter().map(|t| t.1).collect();
+    let config = w.config.clone();
+    let tokio = w.tokio.clone();
+    drop(w);
+    // ---- the real thing
+    let storage = StorageSystem::new(config.storage_uri.clone());
+    let mut sm = match StartupManager::new(config.clone(), storage, tokio.handle().clone()) {
+        Ok(sm) => sm,
+        Err(e) => return vec![("restart-failed".into(), e.to_string())],
+    };
+    if let Err(e) = sm.run_scheduler() {
+        return vec![("restart-failed".into(), e.to_string())];
+    }
+    // wait (real time) until nothing is due and nothing is running any more,
+    // or give up after 20 s
+    let probe = World::reopen(WorldCfg::default());
+    let probe = match probe {
+        Ok(p) => p,
+        Err(e) => return vec![("machinery".into(), format!("probe: {e}"))],
+    };
+    let t0 = std::time::Instant::now();
+    let mut stable = 0;
+    loop {
+        clock::real_sleep_ms(100);
+        let due = probe.next_due_in().map(|d| d <= 0).unwrap_or(false);
+        let run_now = probe.running_tasks();
+        // a stale running entry never goes away: accept "no due task" for 1 s
+        if !due {
+            stable += 1;
+        } else {
+            stable = 0;
+        }
+        if (stable >= 10 && (run_now.is_empty() || stable >= 20))
+            || t0.elapsed().as_secs() > 20
+        {
+            break;
+        }
+    }
+    let (_manager, pool) = match sm.promote() {
+        Ok(x) => x,
+        Err(e) => return vec![("machinery".into(), format!("promote: {e}"))],
+    };
+    pool.terminate();
+    // ---- oracle (same as after a harness restart + pump)
+    let mut v = Vec::new();
+    let pend: Vec<String> = probe.pending_tasks().into_iter().map(|t| t.1).collect();
+    let run: Vec<String> = probe.running_tasks().into_iter().map(|t| t.1).collect();
+    for r in &run {
+        v.push((
+            "stuck-running".into(),
+            format!("real start-up: task '{r}' still marked running after the scheduler went idle (running at crash: {before_running:?})"),
+        ));
+    }
+    let mut needed = vec![
+        "all_cas_republish_if_needed".to_string(),
+        "all_cas_renew_objects_if_needed".to_string(),
+        "update_stored_snapshots".to_string(),
+        "renew_testbed_ta".to_string(),
+        "sync_ca_with_parent_parent".to_string(),
+        "sync_parent_with_parent_ta".to_string(),
+    ];
+    needed.sort();
+    for n in needed {
+        if !pend.contains(&n) {
+            v.push((
+                "recurring-missing".into(),
+                format!("real start-up: recurring task '{n}' is not scheduled after the scheduler went idle (running at crash: {before_running:?}; pending: {pend:?})"),
+            ));
+        }
+    }
+    v
+}
+
+pub fn real_startup_cases(out: &mut Outcome, thorough: bool) -> (u64, Vec<serde_json::Value>) {
+    let mut cases: Vec<Vec<&str>> = vec![
+        vec![],
+        vec!["sync_repo_ca"],
+        vec!["queue_start_tasks"],
+    ];
+    if thorough {
+        cases.push(vec!["queue_start_tasks", "sync_repo_ca"]);
+        cases.push(vec!["update_stored_snapshots"]);
+        cases.push(vec!["sync_repo_ca", "update_stored_snapshots"]);
+    }
+    let root = e1run::scratch_root().with_extension("rs");
+    let _g = e1run::ScratchGuard(root.clone());
+    let mut n = 0;
+    let mut samples = Vec::new();
+    // run the cases in parallel children
+    let mut pids = Vec::new();
+    for (i, case) in cases.iter().enumerate() {
+        let dir = root.join(format!("c{i}"));
+        let _ = std::fs::remove_dir_all(&dir);
+        std::fs::create_dir_all(&dir).unwrap();
+        let outf = root.join(format!("c{i}.json"));
+        use std::io::Write;
+        let _ = std::io::stdout().flush();
+        let pid = unsafe { libc::fork() };
+        if pid == 0 {
+            std::env::set_current_dir(&dir).unwrap();
+            let r = std::panic::catch_unwind(|| real_startup_case(case));
+            let v = match r {
+                Ok(v) => v,
+                Err(p) => vec![("panic".to_string(), crate::e1::panic_message(&p))],
+            };
+            let _ = std::fs::write(&outf, serde_json::to_vec(&v).unwrap());
+            unsafe { libc::_exit(0) };
+        }
+        pids.push((pid, outf, case.clone()));
+    }
+    for (pid, outf, case) in pids {
+        let mut st = 0;
+        unsafe { libc::waitpid(pid, &mut st, 0) };
+        n += 1;
+        samples.push(json!({"running_at_crash": case, "path": "StartupManager::run_scheduler + real scheduler thread"}));
+        let res: Vec<(String, String)> = std::fs::read(&outf)
+            .ok()
+            .and_then(|b| serde_json::from_slice(&b).ok())
+            .unwrap_or_else(|| vec![("machinery".into(), format!("case {case:?}: no result (status {st:#x})"))]);
+        for (k, d) in res {
+            if k == "machinery" {
+                out.machinery_errors.push(format!("real start-up case {case:?}: {d}"));
+            } else {
+                out.findings.push(Finding {
+                    signature: format!("real-startup-{k}|{} @ running={case:?}", crate::e1::normalize(&d)),
+                    text: format!("{k}: {d}"),
+                    replay: json!({"part": "real-startup", "running_at_crash": case, "kind": k, "detail": d}),
+                });
+            }
+        }
+    }
+    (n, samples)
+}
+
 pub fn run(tier: &Tier, args: &[String]) -> i32 {
     let mut out = Outcome::new("C09", tier, "model_checking");
     out.assumptions = vec![
@@ -697,8 +874,10 @@ pub fn run(tier: &Tier, args: &[String]) -> i32 {
     let wc = w_out.coverage;
     let w_states = wc["states"].as_u64().unwrap_or(0);
     let w_trans = wc["transitions"].as_u64().unwrap_or(0);
+    let (real_cases, real_samples) = real_startup_cases(&mut out, tier.thorough);
     let mut samples = q.samples.clone();
     samples.extend(tsamples);
+    samples.extend(real_samples);
     if let Some(a) = wc["samples"].as_array() {
         samples.extend(a.iter().take(4).cloned());
     }
@@ -713,6 +892,7 @@ pub fn run(tier: &Tier, args: &[String]) -> i32 {
         "taskqueue_bfs": {"depth": tdepth, "states": ts, "transitions": tt,
                           "startups_by_number_of_running_tasks": startup_hist},
         "world": wc,
+        "real_startup_cases": real_cases,
         "explanation": "counters[6..9] of the world run = restarts exercised with 0,1,2,3+ tasks in the running state",
     });
     out.finish()
